@@ -6,6 +6,12 @@ props = [json.loads(l) for l in open(os.path.join(ROOT, "properties.jsonl"))]
 
 TECH = "Rocq (Coq 8.16.1) proof over a hand-written Gallina model + differential lock-step (extracted OCaml model vs the Rust code)"
 CLAIMS = {
+ "C01": ("proof", "C01_safety proved in Coq for the two-endpoint TCP system: for EVERY closed-system trace (all interleavings of writes, reads, closes, ticks, emit, deliver-any/drop/dup, fair rounds; all ISNs; MTU >= 100; streams < 2^31-2^17) the implementation model has not panicked and delivered is a prefix of submitted in both directions; C01_sender_consistent (every segment carries the slice of the stream at its sequence number). The model is lock-stepped label by label against the real Tcb; liveness (delivery, acknowledgement, silence after a loss-free tail) is checked by the implementation-side oracle on three kinds of fair tails and proved only for a canonical round (partial).",
+         "Coq kernel; TcpNet composition mirrors the harness (tick = flush + advance_time, last read at deletion), not tcp_session.rs; one incarnation per endpoint pair."),
+ "C02": ("proof", "Socket receive side modelled from socket.rs: recv(n) <= n, conservation of bytes across reads and pushes, accept replay, datagram wholeness, stream = concatenation of writes UNDER the explicit FIFO hand-off hypothesis (and a permutation without it) proved; unit lock-step of recv/recv_msg plus full-stack child-process scenarios (TCP/UDP sockets, loss/dup/jitter plans, both runtime flavours) validated by the extracted validators. Write reordering on the multi_thread runtime: recorded known finding.",
+         "Coq kernel; tokio scheduling, real time and TCP/IP internals below the socket are not modelled (C01/C04)."),
+ "C03": ("proof", "C03_edges: for every TCB state and EVERY segment each operation moves along the RFC 9293 state diagram (table pinned by C03_edge_table), close/timer/emit/send/receive characterised, deletions only by RST or the final ACK; C03_sync and C03_data_before_fin proved for every closed-system trace (corollaries of the C01 invariant). Release of both endpoints after closes is checked by the harness on loss-free tails (partial).",
+         "Coq kernel; session table of tcp.rs outside the model; ghost SYNs only covered by the per-step theorems."),
  "C04": ("proof", "UDP/IPv4 listen tables and the receive pipeline as a Coq model: exact-wins, soundness of lookup (never another port or another specific address), rebind refusal, end-to-end payload/endpoints, unbound dropped, order-insensitivity proved for all binding tables; the real stack is tied by trace validation (child-process scenarios, complete event list checked by the extracted validator with a proved soundness lemma) plus an independent Rust oracle. Partial for arrival orders on the real runtime (tokio scheduling, ARP resolution not modelled).",
          "Coq kernel; datagrams are records (codec round trips are C08); bindings static while datagrams are in flight."),
  "C05": ("proof", "Link model (tap allocation, MTU test, unicast/broadcast routing, single-server throughput + latency timing) with routing, MTU, MAC-distinctness (induction over attach), exactly-once, latency and throughput bounds proved; every recorded trace of the real Network/Pci (virtual time, exact instants) is checked by the extracted validator (soundness proved). Partial: tokio scheduling and Notify order are only exercised.",
@@ -24,12 +30,18 @@ CLAIMS = {
          "Coq kernel; BinaryHeap and FxHashMap modelled (priority-queue lemmas proved for the concrete heap model); the tokio expiry timer is an event at arbitrary times."),
  "C12": ("proof", "Circular comparison primitives proved equal to the mathematical circular order for all pairs < 2^31 apart, mutually consistent and shift-invariant; TCB-level ISN equivariance: paired runs of the real Tcb with shifted ISNs (oracle) and lock-step of the TCB model; equivariance theorem over the model in progress.",
          "Coq kernel; hand model of modular_cmp.rs and tcb.rs tied by lock-step."),
+ "C16": ("proof", "Router hop model from ArpRouter::demux (imports the C09 LPM theorems): TTL decrements, one-in-one-out, trajectory length <= TTL for EVERY topology and table assignment, follows-route, payload unchanged, only-destination; recorded traces (frames with bytes) validated by the extracted validator with proved soundness. ARP table shared by all slots: recorded known finding (wrong-slot routes only).",
+         "Coq kernel; ARP exchange, task spawning and timers validated by traces only."),
  "C17": ("proof", "Single-endpoint invariant Inv preserved by every TCB operation for ARBITRARY syntactically valid segments; no-crash for all operation sequences (also at system level incl. forged segments); new data never beyond SND.UNA+SND.WND; unacceptable segments (outside the window, or without SYN/RST in SYN-SENT) leave state/data/receive variables unchanged - all proved on the TCB model, which is lock-stepped against tcb.rs on hostile schedules (dev profile; release profile in the thorough tier).",
          "Coq kernel; MTU >= 50, text <= 65515 bytes; window judged against [RCV.NXT-1, RCV.NXT+RCV.WND) as tcb.rs does; TcpNet composition mirrors the harness, not tcp.rs."),
  "C18": ("proof", "One's-complement accumulator proved congruent to the sum mod 65535; emitted IPv4/UDP/TCP checksums verify under RFC 1071 incl. pseudo header and odd lengths; decoders accept iff the field verifies (conforming 0x0000/0xffff included after the fix); every single-bit flip rejected, double flips rejected except exactly the compensating pairs; lock-step in the compute_checksum build against the Rust code and etherparse.",
          "Coq kernel; second harness build with feature compute_checksum."),
+ "C20": ("proof", "DNS protocol model on top of the DNS codec model: every returned address is the registered one, accepted replies echo the query's id and name (isolation by per-query socket), cache hits emit no frame, no crash when names are registered; traces of the real client/server replayed label by label through the extracted step function.",
+         "Coq kernel; socket/UDP/IP/ARP stack below is C02/C04; liveness only as enabledness."),
  "C19": ("proof", "NDL parser model (incl. the nom combinators used) with the whole-file round trip proved for tab / 4-space / CRLF renderings of every well-formed description, soundness of acceptance and one reject lemma per structural-error class; parser tied to the code by lock-step on rendered trees and mutants of the repository's files; running a valid description is checked by child-process runs against a reference evaluation (testing only). Values containing `]`, four spaces or CR do not round-trip: recorded known finding.",
          "Coq kernel; nom 7 combinators hand-modelled; error message texts not modelled (class + line only); machine_generator/run_internet not modelled (part 2 partial)."),
+ "C13": ("proof", "Barrier theorem for all interleavings given per-protocol frame-free-before-wait action lists; the 32 built-in start bodies as a table checked by vm_compute (Forward refuted = recorded known finding) and tied to the source by a structural extractor; first-status / exactly-once / deadline theorems for the run task; full-stack child-process runs validated by the extracted model. Example applications that unwrap after shutdown: recorded known finding.",
+         "Coq kernel; tokio Barrier/broadcast/timeout semantics transcribed, not verified; user protocols' discipline is a hypothesis."),
  "C14": ("proof", "Totality (never Panic) of the six decoder models and of the NDL parser model proved for all byte strings / texts; models tied by lock-step on hostile inputs; panic-site inventory makes a new unwrap/expect/unreachable!/assert!/index in the anchored files break the correspondence; part 2 (undecodable frames dropped at their layer, simulation keeps running) by frame injection into a running simulation - trace validation only (partial).",
          "Coq kernel; unchecked integer arithmetic sites are not inventoried; stack-level drop is testing."),
  "C15": ("proof", "Address-generator specs (block/return/fetch), no-panic and the no-double-allocation history theorem proved for all op sequences; DHCP distinctness proved on a protocol model; generator tied to ip_generator.rs by lock-step; the DHCP protocol model is not yet tied to the code by full-stack runs (partial there).",
